@@ -880,8 +880,8 @@ def compare(b, s, got, etoks, expr_toks):
                 using = [expr_toks(sp[1]) for sp in cd[3:] if sp[0] == "using"]
                 if cd[2] != "-":
                     want.append(["altertype", name, cd[2], using[0] if using else None])
-                elif using:
-                    raise Mismatch("USING declared without a new type")
+                # USING only exists as part of ALTER COLUMN .. TYPE: without a new type it has no ALTER action
+                # (like COMMENT / GENERATED / auto-increment, which Postgres cannot express here either)
                 for sp in cd[3:]:
                     kk = sp[0]
                     if kk == "null":
